@@ -210,6 +210,8 @@ def table() -> dict[str, Prop]:
     from .rules import bnd_rules as BN2
     props["C01"].rules.append(BN2.rule_tokbnd)         # token / delimiter list subscripts are in range
     props["C20"].rules.append(LP.rule_loopvar)
+    props["C02"].rules.append(TK.rule_move)            # a token is moved only across closers of its own pair
+    props["C04"].rules.append(TK.rule_move)
     from .rules import partial_rules as PT
     props["C01"].rules.append(PT.rule_partial)         # dict reads, optional regex matches, index / remove / next stay in their domain
     props["C03"].rules.append(TT.rule_unisplit)        # lines are split at LF only (no Unicode-aware splitlines on the source)
